@@ -17,6 +17,7 @@ import (
 	sdk "github.com/cosmos/cosmos-sdk/types"
 	authtypes "github.com/cosmos/cosmos-sdk/x/auth/types"
 
+	vesting "github.com/certikfoundation/shentu/x/auth/types"
 	shieldtypes "github.com/certikfoundation/shentu/x/shield/types"
 )
 
@@ -196,6 +197,23 @@ func PayoutProfile(seed int64, out *Recorder, nOps int) *Chain {
 		if !payout.IsPositive() {
 			payout = sdk.OneInt()
 		}
+		// in one trial out of three the provider is an account with locked coins (a ManualVestingAccount that delegated and
+		// deposited collateral): the payout must not unlock anything.  With `tracked`, its delegation tracking says that locked
+		// coins are delegated (what a bank keeper that persisted the tracking would have recorded).
+		var mva D
+		ak := a.App.VerifAccountKeeper()
+		if base, ok := ak.GetAccount(ctx, addr).(*authtypes.BaseAccount); ok && rng.Intn(3) == 0 && all.IsPositive() {
+			ov := sdk.NewInt(1 + rng.Int63n(all.Int64()))
+			vested := sdk.NewInt(rng.Int63n(ov.Int64()/2 + 1))
+			acc := vesting.NewManualVestingAccount(base, sdk.NewCoins(sdk.NewCoin(Bond, ov)), sdk.NewCoins(sdk.NewCoin(Bond, vested)), provs[(rng.Intn(len(provs)))])
+			dv := sdk.ZeroInt()
+			if rng.Intn(3) == 0 {
+				dv = sdk.MinInt(ov, total)
+				acc.DelegatedVesting = sdk.NewCoins(sdk.NewCoin(Bond, dv))
+			}
+			ak.SetAccount(ctx, acc)
+			mva = D{"ov": ov.String(), "vested_pre": vested.String(), "dv_pre": dv.String()}
+		}
 		recPre := sdk.ZeroInt()
 		if p, found := k.GetProvider(ctx, addr); found {
 			recPre = p.DelegationBonded
@@ -212,11 +230,23 @@ func PayoutProfile(seed int64, out *Recorder, nOps int) *Chain {
 		if p, found := k.GetProvider(ctx, addr); found {
 			recPost = p.DelegationBonded
 		}
-		out.emit(D{"k": "payout", "trial": trial, "provider": Hex(addr), "slashes": slashed,
+		if mva != nil {
+			if acc, ok := ak.GetAccount(ctx, addr).(*vesting.ManualVestingAccount); ok {
+				mva["vested_post"] = acc.VestedCoins.AmountOf(Bond).String()
+				mva["dv_post"] = acc.DelegatedVesting.AmountOf(Bond).String()
+			} else {
+				mva = nil
+			}
+		}
+		line := D{"k": "payout", "trial": trial, "provider": Hex(addr), "slashes": slashed,
 			"dels": pre, "dels_post": readDels(ctx, addr, vals), "ubds": ubdsPre, "ubds_post": readUbds(ctx, addr),
 			"purchased": purchased.String(), "payout": payout.String(), "recorded_pre": recPre.String(), "recorded_post": recPost.String(),
 			"mod_delta": bk.GetBalance(ctx, modAddr, Bond).Amount.Sub(balPre).String(), "outcome": outcome,
-			"h": fmt.Sprint(a.Height)})
+			"h": fmt.Sprint(a.Height)}
+		if mva != nil {
+			line["mva"] = mva
+		}
+		out.emit(line)
 	}
 	return a
 }
